@@ -548,7 +548,8 @@ def gen_scenario(rng: random.Random, groups: bool = True, async_req: bool = Fals
         typ = rng.choice(TYPES)
         grp = rng.choice(GROUPS if use_groups else [[]])
         sims.append({"type": typ, "group": grp,
-                     "init_ev": rng.choice([None, None, 0, 1, 2]) if typ == "event-based" else None})
+                     # (set_initial_event on a time-based / hybrid simulator replaces its initial step at 0)
+                     "init_ev": rng.choice([None, None, 0, 1, 2]) if typ == "event-based" else (rng.choice([1, 2]) if rng.random() < 0.06 else None)})
     connects = []
     used = set()
     for _ in range(rng.randint(1, 2 * n)):
